@@ -277,7 +277,7 @@ func (r *runner) grammarSiblings() {
 	if c.Quick() {
 		bound = "counts 1..64, 100, 127, 128, 255, 256, 1000, 2000, 5000, 9000, 9990..10010, 10049, 10050"
 	}
-	c.SecBound(sec, bound+" of the elements {04 00, 30 00, 5F0E 01 41, 06 01 2A}, flat and inside the entry point's own outer tag, at tlv.Decode+String and tlv.DecodeEncode; the ladder {1,2,16,100,1000,9999,10000,10001,10050} at every other TLV based entry point; EF.COM tag lists and DG11/DG12 tag lists of the same counts; DG11/DG12: every tag of the file's vocabulary listed n times x n matching data objects (also 1 x n, n x 1, wrapped in A0) for n in {2,16,100,300,1000}")
+	c.SecBound(sec, bound+" of the elements {04 00, 30 00, 5F0E 01 41, 06 01 2A}, flat and inside the entry point's own outer tag, at tlv.Decode+String and tlv.DecodeEncode; the ladder {1,2,16,100,1000,9999,10000,10001,10050} at every other TLV based entry point; EF.COM tag lists and DG11/DG12 tag lists of the same counts; DG11/DG12: every tag of the file's vocabulary listed n times x n matching data objects (also 1 x n, n x 1, wrapped in A0) for n in {2,16,100,300,1000,4000,12000} (as far as the file stays below 60 000 bytes)")
 	ladder := []int{1, 2, 16, 100, 1000, 9999, 10000, 10001, 10050}
 	for _, en := range grammarEPs {
 		ep := mustEP(en)
@@ -346,19 +346,21 @@ func (r *runner) grammarSiblings() {
 		{"document.NewDG12", 0x6C, [][]byte{{0x5F, 0x19}, {0x5F, 0x1A}, {0x5F, 0x1B}, {0x5F, 0x1C}, {0x5F, 0x1D}, {0x5F, 0x1E}, {0x5F, 0x26}, {0x5F, 0x55}, {0x5F, 0x56}, {0xA0}}},
 	} {
 		ep := mustEP(t.en)
-		for _, n := range []int{2, 16, 100, 300, 1000} {
+		for _, n := range []int{2, 16, 100, 300, 1000, 4000, 12000} {
 			if !c.Mine() {
 				continue
 			}
 			for _, tg := range t.tags {
 				for _, val := range [][]byte{{'A'}, []byte("20200101")} {
-					for _, shape := range []string{"n-entries-n-objects", "1-entry-n-objects", "n-entries-1-object", "n-entries-wrapped-in-A0"} {
+					for _, shape := range []string{"n-entries-n-objects", "1-entry-n-objects", "n-entries-1-object", "n-entries-wrapped-in-A0", "n-entries-99-objects-in-A0"} {
 						ln, on := n, n
 						switch shape {
 						case "1-entry-n-objects":
 							ln = 1
 						case "n-entries-1-object":
 							on = 1
+						case "n-entries-99-objects-in-A0":
+							on = 99
 						}
 						var list, objs []byte
 						for i := 0; i < ln; i++ {
@@ -371,7 +373,7 @@ func (r *runner) grammarSiblings() {
 						for i := 0; i < on; i++ {
 							objs = append(objs, obj...)
 						}
-						if shape == "n-entries-wrapped-in-A0" {
+						if shape == "n-entries-wrapped-in-A0" || shape == "n-entries-99-objects-in-A0" {
 							cnt := byte(min(on, 99))
 							inner := append([]byte{0x02, 0x01, cnt}, objs...)
 							objs = append(append([]byte{0xA0}, berLen(len(inner))...), inner...)
